@@ -239,6 +239,7 @@ occ = z3.Function("occ", ISq, ISq, I, B)            # t occurs in s at offset o
 REVEALABLE = {}
 
 
+seeded_bits = z3.Function("seeded_bits", I, I, I, I)   # k-th random.getrandbits(n) after random.seed(s)
 rng = z3.Function("rng", I, I)          # the i-th value drawn from random.getrandbits(32) (any stream)
 fill = z3.Function("fill", I, I, ISq)   # fill(v, n): n copies of v  (b"X" * n)
 
@@ -290,7 +291,7 @@ def lib_axioms():
                     patterns=[to(v, n)]))
         A.append(FA([s], z3.And(fits(fr(s), ln(s)), to(fr(s), ln(s)) == s), patterns=[fr(s)]))
     A.append(FA([v, n], z3.Implies(fits_bytes(v, n), v >= 0), patterns=[fits_bytes(v, n)]))
-    for wd in (0, 1, 2, 3, 4, 8):
+    for wd in (0, 1, 2, 3, 4, 8, 16):
         A.append(FA([v], fits_bytes(v, wd) == z3.And(0 <= v, v < 256 ** wd), patterns=[fits_bytes(v, wd)]))
         A.append(FA([v], fits_signed(v, wd) == (z3.And(-(256 ** wd // 2) <= v, v < 256 ** wd // 2) if wd else v == 0),
                     patterns=[fits_signed(v, wd)]))
